@@ -33,6 +33,8 @@ THEOREMS = [
     "RedunModel.C10.no_lost_job_partial",
     "RedunModel.C10.no_monitor_crash_partial",
     "RedunModel.C10.wf_variants",
+    "RedunModel.C10.fault_is_reported",
+    "RedunModel.C10.exc_paths",
     "RedunModel.C10.locked_no_lost_job",
 ]
 VARIANTS = ["docker", "batch", "k8s", "gcp", "glue"]
@@ -45,6 +47,9 @@ TRUSTED = [
     "every queued job, stop() ends it); its line-level behaviour is property C11",
     "cloud/container APIs (docker, AWS Batch, K8S, GCP Batch, Glue, S3) are in-process fakes that accept every submission "
     "and report every job as SUCCEEDED at the next poll; their real behaviour is outside the claim",
+    "fault injection: the environment step F arms one transient cloud error (botocore ClientError TooManyRequestsException); it is "
+    "raised by the next fake parse_job_result call, i.e. inside status processing, after the job has been popped from the "
+    "pending map (before the pop for Glue)",
     "modelled, not verified: Thread.start/is_alive/join, OrderedDict/deque order, `and`/`or` short-circuit in one line",
 ]
 ASSUMPTIONS = [
@@ -54,7 +59,7 @@ ASSUMPTIONS = [
     "overflow path: one job per poll, remainder re-queued); job_monitor_interval = 0",
     "interleavings explored by the tie: the directed witness schedules plus pre-emption bounded random schedules",
 ]
-RULE = ("a case = (executor, number of jobs, schedule over {S, M k, U k, A}) executed line by line on the real executor "
+RULE = ("a case = (executor, arrayer max_array_size, number of jobs, schedule over {S, M k, U k, A, F = arm one cloud error}) executed line by line on the real executor "
         "class under harness/ctl_threads.py and on the Lean model; compared after every step: executed line, next line of "
         "every thread, is_running, pending map, queue, arrayer liveness, arrayer.num_pending (= queue length in the model), "
         "done/reject calls. distinct = distinct "
@@ -70,7 +75,10 @@ LEVEL_TEXT = ("Proved in Lean: refuted_docker / refuted_aws_batch / refuted_k8s 
               "no_monitor_crash_partial, wf_variants): for Docker, AWS Batch, K8S and GCP Batch that window is the ONLY way "
               "to lose a job — in every interleaving in which no job is recorded while a monitor is between its failed "
               "loop test and the point where _start would start a new thread, nothing is lost and no monitor crashes "
-              "(not covered: Glue, which has the second loss mode). locked_no_lost_job: the hand-off "
+              "(not covered: Glue, which has the second loss mode). fault_is_reported (+ exc_paths): for all five executors "
+              "and every interleaving, a job that a status-processing step removed from the pending map before a cloud "
+              "call failed (injected throttling error) is always covered by a scheduler-level error "
+              "(reject_job(None, error)) raised or about to be raised — never silently dropped. locked_no_lost_job: the hand-off "
               "done under one lock (monitor: loop test and clearing the flag; submitter: flag test, set, thread start) "
               "loses no job in any interleaving — the specification of the repair. Tie: line-by-line lockstep of the "
               "five real executor classes with the model under controlled schedules.")
@@ -148,6 +156,7 @@ LABELS = {
         27: ("_monitor", "try:"),
         28: ("_monitor", "task = gcp_utils.get_task(client=gcp_batch_client, task_name=name)  # ty: ignore[invalid-argument-type]"),
         15: ("_monitor", "self._process_task_status(task)"), 16: ("_monitor", SLEEP), **EXC, **SHUT,
+        35: ("_monitor", "except NotFound:"),
         21: ("stop", "self.is_running = False"), 32: ("stop", "self._docker_executor.stop()"),
         33: ("stop", "self.arrayer.stop()"), **JOIN,
     },
@@ -179,10 +188,11 @@ LABELS = {
 # labels of a monitor's exit path up to the point after which a submission is safe again
 EXIT_LABELS = {
     "docker": {19, 20, 21, 17, 18}, "batch": {19, 20, 32, 33, 21, 17, 18}, "k8s": {19, 20, 33, 21, 17, 34, 18},
-    "gcp": {19, 20, 21, 32, 33, 22, 23, 24, 25, 17, 18}, "glue": {20, 21, 17, 18},
+    "gcp": {19, 20, 21, 32, 33, 22, 23, 24, 25, 35, 17, 18}, "glue": {20, 21, 17, 18},
 }
 ARR_WAIT = "<arrayer-wait>"
 THREAD_EXIT = "<thread-exit>"
+FAULT = "<cloud-error-armed>"
 DRAIN_LIMIT = 3000
 STALL_STEPS = 400      # a monitor loop iteration is < 40 lines
 
@@ -262,6 +272,9 @@ class Rig:
         self.events = []
         self.switches = 0
         self.hit = False
+        self.fault_armed = False    # the next parse_job_result (a scratch-store read inside status processing) raises once
+        self.faults = 0
+        self.fired = 0              # injected errors that were actually raised
         self._last = None
         getattr(self, "_build_" + variant)()
         from ctl_threads import Controller, CtlEvent
@@ -272,6 +285,16 @@ class Rig:
                               exit_roles={"A"})     # an arrayer thread whose function returns on its own stays alive one more step
         if hasattr(self.ex, "arrayer"):
             self.ex.arrayer._exit_flag = CtlEvent(self.ctl, ARR_WAIT, wake_on_set=True)
+
+    def _result(self, scratch, job):
+        """fake parse_job_result: the job's result exists — unless the environment has armed a transient cloud error"""
+        if self.fault_armed:
+            self.fault_armed = False
+            self.fired += 1
+            from botocore.exceptions import ClientError
+            raise ClientError({"Error": {"Code": "TooManyRequestsException", "Message": "Rate exceeded"},
+                               "ResponseMetadata": {"HTTPStatusCode": 429}}, "GetObject")
+        return ("r", True)
 
     def _patch(self, obj, name, value):
         old = getattr(obj, name)
@@ -286,7 +309,7 @@ class Rig:
         self.ex = m.DockerExecutor("x", scheduler=self.sched, config=cfg["x"])
         self._patch(m, "submit_task", lambda image, scratch, job, task, **kw: {"jobId": "c" + job.id, "redun_job_id": job.id})
         self._patch(m, "iter_job_status", lambda scratch, jobs: [{"jobId": k, "status": m.SUCCEEDED, "logs": ""} for k in jobs])
-        self._patch(m, "parse_job_result", lambda scratch, job: ("r", True))
+        self._patch(m, "parse_job_result", self._result)
         X = m.DockerExecutor
         self.targets = [(X._submit, lines_matching(X._submit, [r"self\._pending_jobs\[", r"^\s+self\._start\(\)"])),
                         X._start, X._monitor, X.stop]
@@ -308,7 +331,7 @@ class Rig:
         self._patch(m, "iter_batch_job_status",
                     lambda ids, pending_truncate=10, aws_region=None: [{"jobId": k, "status": m.SUCCEEDED} for k in ids])
         self._patch(m, "get_job_log_stream", lambda job, aws_region=None: None)
-        self._patch(m, "parse_job_result", lambda scratch, job: ("r", True))
+        self._patch(m, "parse_job_result", self._result)
         X = m.AWSBatchExecutor
         self.targets = [(X._submit, lines_matching(X._submit, [r"self\.arrayer\.add_job\(job\)", r"^\s+self\._start\(\)"])),
                         X._start, X._monitor, X.stop]
@@ -338,7 +361,7 @@ class Rig:
                status=NS(succeeded=1, failed=None, conditions=None, completed_indexes=None)) for n in names])
         self._patch(m, "get_k8s_job_pods", lambda core, name: [])
         self._patch(m.k8s_utils, "delete_job", lambda *a, **k: None)
-        self._patch(m, "parse_job_result", lambda scratch, job: ("r", True))
+        self._patch(m, "parse_job_result", self._result)
         X = m.K8SExecutor
         self.targets = [(X._submit, lines_matching(X._submit, [r"self\.arrayer\.add_job\(job\)", r"^\s+self\._start\(\)"])),
                         X._start, X._monitor, X.stop]
@@ -356,7 +379,7 @@ class Rig:
         self._patch(m.gcp_utils, "get_task", lambda client, task_name: NS(name=task_name,
                                                                             status=NS(state=m.TaskStatus.State.SUCCEEDED)))
         self._patch(m, "get_oneshot_command", lambda *a, **k: ["cmd"])
-        self._patch(m, "parse_job_result", lambda scratch, job: ("r", True))
+        self._patch(m, "parse_job_result", self._result)
         cfg = Config({"x": {"image": "img", "project": "p", "region": "r", "gcs_scratch": "gs://b/r/",
                             "debug_scratch": self.tmp, **self.arr_cfg}})
         self.ex = m.GCPBatchExecutor("x", scheduler=self.sched, config=cfg["x"])
@@ -380,7 +403,7 @@ class Rig:
         self._patch(m, "submit_glue_job", lambda job, task, **kw: {"JobRunId": "r" + job.id})
         self._patch(m, "glue_describe_jobs",
                     lambda ids, glue_job_name=None, aws_region=None: [{"Id": i, "JobRunState": "SUCCEEDED"} for i in ids])
-        self._patch(m, "parse_job_result", lambda scratch, job: ("r", True))
+        self._patch(m, "parse_job_result", self._result)
         cfg = Config({"x": {"s3_scratch": self.tmp, "role": "r", "aws_region": "us-west-2", "job_monitor_interval": "0",
                             "job_retry_interval": "0", "code_package": "false"}})
         self.ex = m.AWSGlueExecutor("x", scheduler=self.sched, config=cfg["x"])
@@ -436,7 +459,7 @@ class Rig:
         return ev
 
     def model_ev(self, ev):
-        return ev if ev in ("S", "A") else "(%s i%s)" % (ev[0], ev[1:])
+        return ev if ev in ("S", "A", "F") else "(%s i%s)" % (ev[0], ev[1:])
 
     def next_label(self, name):
         if name is None or name not in self.ctl.names():
@@ -476,7 +499,7 @@ class Rig:
         tf = lambda b: "T" if b else "F"  # noqa: E731
         return (f"(flag {tf(self.flag())}) (pend {self._ids(self.pend())}) (queue {self._ids(self.queue())}) "
                 f"(arr {tf(self.arr_alive())}) (rep {self._ids(self.sched.reported)}) (crash i{len(self.sched.crashes)}) "
-                f"(num i{self.num_pending()})")
+                f"(num i{self.num_pending()}) (armed {tf(self.fault_armed)})")
 
     def num_pending(self):
         """the counter the monitor loops test next to the pending map (arrayer.num_pending; the queue length elsewhere)"""
@@ -487,6 +510,14 @@ class Rig:
         return any(self.next_label(n) in ex_l for n in self.ctl.names() if n.startswith("M"))
 
     def do(self, ev):
+        if ev == "F":
+            if self.fault_armed:
+                return False
+            self.fault_armed = True
+            self.faults += 1
+            self.events.append(ev)
+            self.trace.append((ev, ("", FAULT), self.state(), self.next_label("S"), self.thread_labels("M"), self.thread_labels("U")))
+            return True
         if not self.enabled(ev):
             return False
         name = self.thread_of(ev)
@@ -529,7 +560,7 @@ class Rig:
 
 
 # ------------------------------------------------------------------ model comparison
-_STEP_RX = re.compile(r"^\((\S+) (\(flag .*\(crash i\d+\) \(num i-?\d+\)) \(hit ([TF])\) \(S (\S+)\) \(mons ([^)]*)\) \(subs ([^)]*)\) \(lost (\([^)]*\))\)\)$")
+_STEP_RX = re.compile(r"^\((\S+) (\(flag .*\(crash i\d+\) \(num i-?\d+\) \(armed [TF]\)) \(hit ([TF])\) \(S (\S+)\) \(mons ([^)]*)\) \(subs ([^)]*)\) \(lost (\([^)]*\))\)\)$")
 
 
 def lab(variant, tok):
@@ -554,7 +585,7 @@ def compare(ctx, case, variant, trace, reply, hit=None):
         if not m:
             raise Infra("C10 driver reply not understood: " + part[:300])
         tok, mst, hit_tok, s_tok, mons_tok, subs_tok, _lost = m.groups()
-        want = ("", ARR_WAIT) if ev == "A" else lab(variant, tok)
+        want = ("", ARR_WAIT) if ev == "A" else ("", FAULT) if ev == "F" else lab(variant, tok)
         if want != executed:
             ctx.mismatch(f"step {k} ({ev}): executed line differs", case, model=repr(want), impl=repr(executed))
             return False
@@ -584,7 +615,7 @@ def oracle(ctx, case, rig, finished):
         ctx.violation(f"C10-{v}-reported-twice", f"job(s) {twice} reported to the scheduler more than once", case,
                       expected="once", actual=rep, kind="interleaving")
         ok = False
-    if rig.sched.crashes:
+    if rig.sched.crashes and not rig.fired:
         ctx.violation(f"C10-{v}-monitor-crash", "a monitor thread failed: " + rig.sched.crashes[0], case,
                       expected="no reject_job(None, ...)", actual=rig.sched.crashes, kind="interleaving")
         ok = False
@@ -602,8 +633,14 @@ def oracle(ctx, case, rig, finished):
     if finished:
         recorded = rig.pend() + rig.queue() + rep
         lost = sorted(set(range(rig.njobs)) - set(rep))
+        if lost and rig.fired and rig.sched.crashes:
+            lost = []           # a cloud error was injected and the scheduler was told (reject_job(None, error)): the workflow fails loudly
         if lost:
-            if rig.hit:
+            if rig.fired:
+                sig, why = f"C10-{v}-silently-dropped-on-cloud-error", (
+                    "a transient cloud error (throttling) during status processing was swallowed: the job had been taken out "
+                    "of the pending map, nothing was reported and no scheduler-level error was raised")
+            elif rig.hit:
                 sig, why = f"C10-{v}-submit-in-exit-window", "a job recorded while the monitor was between its loop test and the end of stop()"
             elif v == "glue":
                 sig, why = "C10-glue-in-hand-at-loop-exit", "the monitor left while the submission thread held a job between popleft and running_glue_jobs[...] = job"
@@ -685,6 +722,13 @@ def witness_scripts():
         out.append(dict(name=v + "-oversized-group-interleaved", variant=v, njobs=4, arrmax=1, signature=None,
                         script=[("S", "n", 1), ("S", "until", {1}), ("S", "n", 1), ("S", "until", {1}), ("A", "n", 1),
                                 ("M", "n", 60), ("S", "run"), ("A", "n", 1), ("M", "n", 150)]))
+    # one transient cloud error (throttling) inside status processing: the job is reported or the scheduler is told
+    for v in VARIANTS:
+        warm = [("S", "run")] + ([("A", "n", 1)] if v in ("batch", "k8s", "gcp") else []) + ([("U", "run")] if v == "glue" else [])
+        out.append(dict(name=v + "-cloud-error-first-job", variant=v, njobs=2, signature=None,
+                        script=warm + [("F", "n", 1), ("M", "run")]))
+        out.append(dict(name=v + "-cloud-error-last-job", variant=v, njobs=2, signature=None,
+                        script=warm + [("M", "until", {15}), ("M", "n", 1), ("M", "until", {15}), ("F", "n", 1), ("M", "run")]))
     out.append(dict(name="glue-in-hand", variant="glue", njobs=1, signature="C10-glue-in-hand-at-loop-exit",
                     script=[("S", "run"), ("U", "until", {46}),        # popleft done, job in hand
                             ("M", "run"), ("U", "run")]))
@@ -694,6 +738,7 @@ def witness_scripts():
 def random_schedule(rig, rng, nsteps):
     cur = "S"
     stick = rng.choice([0.3, 0.6, 0.8, 0.9])
+    inject = rng.random() < 0.25          # one transient cloud error at a random moment
     adversarial = rng.random() < 0.5     # prefer the scheduler thread while a monitor is on its exit path, and
     for _ in range(nsteps):               # a monitor while a Glue submission thread holds a job
         evs = rig.enabled_events()
@@ -715,6 +760,10 @@ def random_schedule(rig, rng, nsteps):
                 cur = ms[-1]
                 rig.do(cur)
                 continue
+        if inject and rng.random() < 0.03:
+            rig.do("F")
+            inject = False
+            continue
         if cur not in evs or rng.random() > stick:
             weights = [0.3 if e == "A" and not rig.queue() else 1.0 for e in evs]
             cur = rng.choices(evs, weights)[0]
@@ -771,7 +820,7 @@ def run(ctx):
             if not any(k.get("signature") == w["signature"] for k in ctx.known):
                 ctx.mismatch("witness " + w["name"] + " (Props/C10.lean refuted_*) no longer loses a job on the implementation",
                              r["full"], model="job lost", impl="all jobs reported", signature=w["signature"])
-    n = ctx.n(100, 1500)
+    n = ctx.n(65, 1500)
     for i in range(n):
         if ctx.elapsed() > (60 if ctx.tier == "quick" else 420):
             ctx.note(f"time budget reached after {i} random cases")
